@@ -243,6 +243,10 @@ func c08(tier string) int {
 	run.Set("exhaustive", true)
 	run.Set("rule", fmt.Sprintf("all prior histories of <= %d events (plus one more event over a reduced set: shapes plain/ext/junk97/junk98/stale-own at sizes 0,1,4 and refused stale/fork-growth/garbage-sig, probed to s, s+1, s+2 and N) over {honest accept in shapes plain/ext/otherlog/stale-own/junk1,96,97,98,99,100 at sizes %v with an unverifiable line under the witness key name (future / ancient timestamp, legacy-shaped) and notes of exactly 4096, 16384, 65536, 999000 and 1000000 bytes at sizes 1 and 4; refused: other key, garbage signature, truncated, stale, old too large, fork at same size, fork growth with adversarial proof, bad proof}, executed on the real witness; from every reached state an honest probe (log's own signature only, old = current size, ref6962 proof, empty when sizes are equal or old size is 0) to EVERY size up to %d on a fresh replay, both stores; oracle: accepted. distinct_nontrivial = distinct accepted (store, history, target size)", depth, sizes, n))
 	run.Assumption("the honest log is the main branch of the universe; the probe carries only the log's signature line")
+	// Fault leg: after any single storage failure the log is not wedged - the
+	// fault-free suffix of the C07 histories (honest growth) is accepted and
+	// nothing blocks.
+	runFaults(run, "C08", tier, false)
 	return run.Finish()
 }
 
